@@ -137,7 +137,7 @@ def dependency_cone(pid):
             continue
         seen.append(f)
         src = strip_comments(open(f).read())
-        for m in re.finditer(r"From\s+HecsV\s+Require\s+(?:Import|Export)?\s*([^.]*(?:\.[A-Z][\w.]*)*)\.", src):
+        for m in re.finditer(r"From\s+HecsV\s+Require\s+(?:Import|Export)\s+((?:[A-Za-z_]\w*(?:\.[A-Za-z_]\w*)*\s*)+)\.(?=\s)", src):
             for name in m.group(1).split():
                 todo.append(os.path.join(COQ, *name.split(".")) + ".v")
     return seen
